@@ -370,9 +370,10 @@ End Containers.
 (* ---- soundness of the repaired model: accepted values have exactly the declared shape ---------------------------- *)
 Lemma set_insert_in x l y : In y (set_insert x l) -> y = x \/ In y l.
 Proof.
+  unfold set_insert. destruct (existsb (py_eq x) l); [now right|].
   induction l as [|z l IH]; simpl.
   - intros [H|[]]; auto.
-  - destruct (py_eq x z); [now right|]. destruct (set_leb x z); simpl.
+  - destruct (set_leb x z); simpl.
     + intros [H|H]; auto.
     + intros [H|H]; [right; now left|]. apply IH in H. destruct H; auto.
 Qed.
